@@ -63,4 +63,31 @@ def cleanLog (lim : Retention.Limits) (ttl : Int) (compactOn : Bool) (l : CLog) 
     | none => l
     | some s0 => { l with segs := segs, epochs := l.epochs.clearEarliest s0.base }
 
+/-- `commitLog.Clean()` racing with the writer: `l` is the log when `Clean` took its snapshot
+of the segment list (`n` segments), `l1` the log after the appends that happened while it ran
+(they extend the last of those segments and may roll new ones). The clean works on the first
+`n` segments; segments rolled meanwhile are rebased onto the result, and the epoch cache is
+rebuilt from the survivors plus the live cache's newer epochs (`Rebase`), or moved forward. -/
+def cleanLogDuring (lim : Retention.Limits) (ttl : Int) (compactOn : Bool) (n : Nat) (l1 : CLog) : CLog :=
+  let old := l1.segs.take n
+  let added := l1.segs.drop n
+  let segs := Retention.clean lim ttl old
+  let rebase (ep : Epochs) : Epochs :=
+    match added.head? with
+    | none => ep
+    | some s0 =>
+      (l1.epochs.filter (fun e => e.2 ≥ s0.base)).foldl
+        (fun acc e => if e.1 > acc.latestEpoch then acc.assign e.1 e.2 else acc) ep
+  if compactOn then
+    match compact l1.hw segs with
+    | (out, some ep) => { l1 with segs := out ++ added, epochs := rebase ep }
+    | (out, none) =>
+      match (out ++ added).head? with
+      | none => l1
+      | some s0 => { l1 with segs := out ++ added, epochs := l1.epochs.clearEarliest s0.base }
+  else
+    match (segs ++ added).head? with
+    | none => l1
+    | some s0 => { l1 with segs := segs ++ added, epochs := l1.epochs.clearEarliest s0.base }
+
 end Liftbridge.Compact
